@@ -1165,6 +1165,9 @@ func (cx *Ctx) freshThroughWriter(R, Sp, S *Event) bool {
 		return ok && ancSp[c.Pos()]
 	}
 	dep := sl.derives(storeArgs(cs)[1], stack, -1)
+	if os.Getenv("DEBUG_FRESH") != "" {
+		fmt.Fprintf(os.Stderr, "freshThroughWriter S=%s dep=%v unknown=%v steps=%d\n", cx.P.Pos(S.Site.Pos()), dep, sl.unknown, sl.steps)
+	}
 	return !dep && !sl.unknown
 }
 
